@@ -132,7 +132,8 @@ def build_variant(ck, table, v, wd):
 
     def one(i):
         try:
-            build_driver('drv_layout17', v, ['-I' + gdir(G.gen_inc(table, v, only=[i]), True)])
+            exe = build_driver('drv_layout17', v, ['-I' + gdir(G.gen_inc(table, v, only=[i]), True)])
+            shutil.rmtree(os.path.dirname(exe), ignore_errors=True)      # probe only
             return i, None
         except vlib.BuildError as e:
             why = [ln.strip() for ln in str(e).split('\n') if 'error' in ln or 'undefined reference' in ln]
